@@ -1,8 +1,10 @@
 package cli
 
 import (
+	"encoding/json"
 	"fmt"
 	"io"
+	"math/big"
 	"strings"
 
 	"github.com/itchyny/go-yaml"
@@ -43,8 +45,31 @@ func (m *yamlMarshaler) marshal(v any, w io.Writer) error {
 	} else {
 		enc.SetIndent(2)
 	}
-	if err := enc.Encode(v); err != nil {
+	if err := enc.Encode(normalizeNumbers(v)); err != nil {
 		return err
 	}
 	return enc.Close()
+}
+
+// The YAML encoder writes *big.Int as a quoted string, which is read back
+// as a string, so replace it with json.Number which is written as a number.
+func normalizeNumbers(v any) any {
+	switch v := v.(type) {
+	case *big.Int:
+		return json.Number(v.String())
+	case []any:
+		u := make([]any, len(v))
+		for i, v := range v {
+			u[i] = normalizeNumbers(v)
+		}
+		return u
+	case map[string]any:
+		u := make(map[string]any, len(v))
+		for k, v := range v {
+			u[k] = normalizeNumbers(v)
+		}
+		return u
+	default:
+		return v
+	}
 }
